@@ -6,7 +6,7 @@ cd /verif
 for d in seeded/*/; do
   id=$(basename "$d"); prop=${id%%-*}
   [ -n "$1" ] && [ "$1" != "$prop" ] && continue
-  git -C /repo apply "$d/patch.diff" 2>/dev/null || { echo "RECHECK $id: patch does not apply"; git -C /repo checkout -- .; continue; }
+  git -C /repo apply "/verif/$d/patch.diff" 2>/dev/null || { echo "RECHECK $id: patch does not apply"; git -C /repo checkout -- .; continue; }
   out=$(DNSSIM_NO_MIRI=${DNSSIM_NO_MIRI:-1} ./check "$prop" quick 2>&1); rc=$?
   git -C /repo checkout -- .
   sig=$(echo "$out" | grep -m1 "signature \[" | sed 's/^ *//')
